@@ -145,6 +145,14 @@ func readBackType(t *rapid.T) gen.TypeSpec {
 		}
 	}
 
+	// Names are case-sensitive: an attribute whose name only differs from
+	// another one's by letter case is a field of its own (of any kind).
+	for _, a := range append([]jsonapi.Attr{}, ts.Attrs...) {
+		if up := strings.ToUpper(a.Name); up != a.Name && rapid.IntRange(0, 3).Draw(t, "casevariant") == 0 {
+			ts.Attrs = append(ts.Attrs, jsonapi.Attr{Name: up, Type: rapid.SampledFrom(gen.Kinds).Draw(t, "casevariant-kind"), Nullable: rapid.Bool().Draw(t, "casevariant-nullable")})
+		}
+	}
+
 	return ts
 }
 
